@@ -169,7 +169,7 @@ def handle (line : String) : String :=
         failFirst := fun f => (wl.getD f ([], false, false)).2.1,
         failFinal := fun f => (wl.getD f ([], false, false)).2.2 }
       let (v, steps) := Coord.simulate w n wl.length inputs choices orders
-      let ss := steps.map (fun st => s!"{showTasks st.enabled}>{st.choice}>{showTasks st.spawned}")
+      let ss := steps.map (fun st => s!"{showTasks st.enabled}>{st.choice}>{showTasks st.spawned}@{st.done}/{st.total}")
       s!"{showSimVerdict v} {if ss.isEmpty then "-" else "|".intercalate ss}"
     | _, _, _, _, _ => "bad-field"
   | ["coordscan", files, dirs, world, dirworld, choices] =>
@@ -183,7 +183,7 @@ def handle (line : String) : String :=
         dirSubs := fun d => (dl.getD d ([], [], false)).2.1,
         scanFails := fun d => (dl.getD d ([], [], false)).2.2 }
       let (v, steps) := Coord.ssimulate w wl.length dl.length files dirs choices
-      let ss := steps.map (fun st => s!"{showUTasks st.enabled}>{st.choice}>{showUTasks st.spawned}")
+      let ss := steps.map (fun st => s!"{showUTasks st.enabled}>{st.choice}>{showUTasks st.spawned}@{st.done}/{st.total}")
       s!"{showSimVerdict v} {if ss.isEmpty then "-" else "|".intercalate ss}"
     | _, _, _, _, _ => "bad-field"
   | _ => "bad-op"
